@@ -170,3 +170,12 @@ def cg_trail_replay(ck, maxn, maxv, maxk, switches):
     fails = ck.judge("JDrift", traces, {"DRIFT"}, what="spec->code replay of CompleteGreedy cut histories (%d stimuli, every interruption point)" % len(recs), count_events=lambda t: len(t["m"]))
     ck.classify(fails, lambda fl: {"alg": "cg", "key": fl["trace"]["key"], "model": fl["trace"]["m"], "code": fl["trace"]["c"]})
     ck.cat("cg_trail_replays", len(recs))
+
+
+def placement_traces(ck, stims):
+    """code -> spec, stepwise: every add_item_to_bin of the real heuristic is stepped through the textbook machine (JHeur, DRIFT level)"""
+    traces = core.pmap(drive.run_placements, stims)
+    fails = ck.judge("JHeur", traces, {"DRIFT"}, what="placement traces of the simple heuristics stepped through the textbook machine (%d runs)" % len(traces), chunk=15000,
+                     count_events=lambda t: len(t["adds"]))
+    ck.classify(fails, lambda fl: {"alg": fl["trace"]["alg"], "vals": fl["trace"]["vals"], "k": fl["trace"]["k"], "C": fl["trace"]["C"], "at": fl["e"], "adds": fl["trace"]["adds"][:fl["e"]]})
+    ck.cat("placement_traces", len(traces))
